@@ -262,6 +262,20 @@ class Executor:
             v.fresh = True
         return v
 
+    @staticmethod
+    def annotation_kind(decl: Any) -> str | None:
+        """'frozen' when the declared type of a field / the return type of a property is ``frozenset[...]`` (| None)."""
+        if decl is None:
+            return None
+        kind, owner, d = decl
+        ann = d.annotation if kind == "field" else getattr(getattr(d, "node", None), "returns", None)
+        if ann is None:
+            return None
+        txt = ast.unparse(ann).replace(" ", "")
+        if isinstance(ann, ast.Constant) and isinstance(ann.value, str):
+            txt = ann.value.replace(" ", "")
+        return "frozen" if txt.startswith("frozenset[") or txt == "frozenset" else None
+
     def spec_attr(self, obj: SV, attr: str, st: State) -> SV:
         """Pure attribute read for contracts (no forking, no exceptions)."""
         ci = obj.td.cls if isinstance(obj.td, TRefT) else None
@@ -457,6 +471,7 @@ class Executor:
                 if td is None:
                     td = self.types.td_of_annotation(decl.node.returns, owner.module)
                 v = self.read_field(obj, c0, attr, td, s2, heap)
+                v.kind = self.annotation_kind(self.types.attr_decl(c0, attr))
                 k = self.attr_contract(c0, attr)
                 if k is None and kind == "property":
                     k = self.find_contract(decl, None)
@@ -567,7 +582,7 @@ class Executor:
                 z = smt.EMPTY_TAGS
                 for v in vs:
                     z = z3.SetAdd(z, v.z)
-                return self.ok(SV(TTagSet, z, fresh=True), s)
+                return self.ok(SV(TTagSet, z, fresh=True, kind="mutable"), s)
             raise OutsideSubset("set display of non-tags", node)
 
         return self.bind(self.ev_list(node.elts, st), f)
@@ -625,7 +640,8 @@ class Executor:
         s = base.fork()
         # side facts (typing etc.) that hold under each guard remain valid as implications
         s.assume(z3.Or(*guards))
-        v = SV(td0, z, fresh=all(r.value.fresh for r in results))
+        kinds = {getattr(r.value, "kind", None) for r in results}
+        v = SV(td0, z, fresh=all(r.value.fresh for r in results), kind=kinds.pop() if len(kinds) == 1 else None)
         return [Res("ok", v, s)]
 
     def ev_BoolOp(self, node: ast.BoolOp, st: State) -> list[Res]:
@@ -701,16 +717,17 @@ class Executor:
                     out.extend(self.raise_("TypeError", s.fork().assume(isn), node, "None used as a set"))
                 if self.feasible(s, z3.Not(isn)):
                     s2 = s.assume(z3.Not(isn))
-                    ov = SV(TTagSet, smt.OptTagSet.ots_val(o.z))
+                    ov = SV(TTagSet, smt.OptTagSet.ots_val(o.z), kind=o.kind)
                     out.extend(self.binop(op, ov if a is o else a, ov if b is o else b, s2, node))
                 return out
             if a.td == TTagSet and b.td == TTagSet:
+                # set | frozenset etc.: the result has the type of the LEFT operand
                 if isinstance(op, ast.BitOr):
-                    return self.ok(SV(TTagSet, z3.SetUnion(a.z, b.z), True), s)
+                    return self.ok(SV(TTagSet, z3.SetUnion(a.z, b.z), True, kind=a.kind), s)
                 if isinstance(op, ast.BitAnd):
-                    return self.ok(SV(TTagSet, z3.SetIntersect(a.z, b.z), True), s)
+                    return self.ok(SV(TTagSet, z3.SetIntersect(a.z, b.z), True, kind=a.kind), s)
                 if isinstance(op, ast.Sub):
-                    return self.ok(SV(TTagSet, z3.SetDifference(a.z, b.z), True), s)
+                    return self.ok(SV(TTagSet, z3.SetDifference(a.z, b.z), True, kind=a.kind), s)
             if a.td in (TInt, TOptInt, TBool) and b.td in (TInt, TOptInt, TBool):
                 def g(x, s1):
                     def h(y, s2):
@@ -1068,7 +1085,7 @@ class Executor:
                         z = smt.EMPTY_TAGS
                         for v in vs:
                             z = z3.SetAdd(z, v.z)
-                        return self.ok(SV(TTagSet, z, True), s2)
+                        return self.ok(SV(TTagSet, z, True, kind="mutable"), s2)
                     raise OutsideSubset("set comprehension of non-tags", node)
                 return self.bind(results, mkset)
             if isinstance(it, SV) and it.td == TTagSet and kind == "set" and isinstance(gen.target, ast.Name):
@@ -1085,7 +1102,7 @@ class Executor:
                     if len(rs) != 1 or rs[0].kind != "ok":
                         raise OutsideSubset("impure comprehension condition", node)
                     cond = z3.And(cond, self.truth(rs[0].value, rs[0].state, node))
-                return self.ok(SV(TTagSet, z3.Lambda([t], cond), True), s)
+                return self.ok(SV(TTagSet, z3.Lambda([t], cond), True, kind="mutable"), s)
             if isinstance(it, SV) and isinstance(it.td, TSeqT):
                 h = self.hooks.get("seq_comprehension")
                 if h is not None:
@@ -1093,6 +1110,11 @@ class Executor:
                     if r is not None:
                         return r
                 return self.seq_map(node, gen, it, s, kind)
+            h = self.hooks.get("comprehension_over")
+            if h is not None:
+                r = h(self, node, gen, it, s, kind)
+                if r is not None:
+                    return r
             raise OutsideSubset(f"comprehension over {it!r}", node)
 
         return self.bind(self.ev(gen.iter, st), f)
@@ -1247,8 +1269,10 @@ _lift_cache: dict = {}
 
 
 def _lift_fresh(exprs: list, i: z3.ExprRef, snapshot: int) -> list:
-    """Replace every constant created after ``snapshot`` (names ``prefix!k`` with k > snapshot) by a function of i."""
-    consts: dict[str, z3.ExprRef] = {}
+    """Everything created after ``snapshot`` (names ``prefix!k`` with k > snapshot) while evaluating the element for the
+    arbitrary index i depends on i: constants become functions of i, and Skolem functions that an inner comprehension
+    introduced for its own index get i as an additional argument."""
+    decls: dict[str, z3.FuncDeclRef] = {}
     seen = set()
     stack = list(exprs)
     while stack:
@@ -1258,24 +1282,37 @@ def _lift_fresh(exprs: list, i: z3.ExprRef, snapshot: int) -> list:
         seen.add(t.get_id())
         if z3.is_quantifier(t):
             stack.append(t.body())
+            for pi in range(t.num_patterns()):
+                stack.extend(t.pattern(pi).children())
             continue
-        if z3.is_const(t) and t.decl().kind() == z3.Z3_OP_UNINTERPRETED:
+        if z3.is_app(t) and t.decl().kind() == z3.Z3_OP_UNINTERPRETED and not t.eq(i):
             n = t.decl().name()
             if "!" in n:
                 try:
                     k = int(n.rsplit("!", 1)[1])
                 except ValueError:
                     k = -1
-                if k > snapshot and not t.eq(i):
-                    consts[n] = t
+                if k > snapshot:
+                    decls[n] = t.decl()
         stack.extend(t.children())
-    subs = []
-    for n, c in consts.items():
-        f = z3.Function(f"sk_{n}", smt.IntS, c.sort())
-        subs.append((c, f(i)))
-    if not subs:
+    if not decls:
         return list(exprs)
-    return [z3.substitute(e, *subs) for e in exprs]
+    consts, funs = [], []
+    for n, d in decls.items():
+        dom = [d.domain(a) for a in range(d.arity())]
+        if d.arity() == 0:
+            consts.append((d(), z3.Function(f"sk_{n}", smt.IntS, d.range())(i)))
+        else:
+            nf = z3.Function(f"sk_{n}", smt.IntS, *dom, d.range())
+            funs.append((d, nf(i, *[z3.Var(a, dom[a]) for a in range(d.arity())])))
+    out = []
+    for e in exprs:
+        if funs:
+            e = z3.substitute_funs(e, *funs)
+        if consts:
+            e = z3.substitute(e, *consts)
+        out.append(e)
+    return out
 
 
 def _raise(e: Exception):
